@@ -58,8 +58,30 @@ def evaluate(txt, ns):
     return eval(compile(tree, '<contract>', 'eval'), ns)
 
 
+def _dot(a, b, lo, hi):
+    t = 0.0
+    for j in range(lo, hi):
+        t += a[j] * b[j]
+    return t
+
+
+def _cdot(a, m, c, lo, hi):
+    t = 0.0
+    for j in range(lo, hi):
+        t += a[j] * m[j][c]
+    return t
+
+
+def _cdoto(a, m, c, off, lo, hi):
+    t = 0.0
+    for j in range(lo, hi):
+        t += a[j] * m[off + j][c]
+    return t
+
+
 def namespace(c, args):
-    ns = {'_close': _close, 'implies': lambda a, b: (not a) or b, 'iff': lambda a, b: bool(a) == bool(b),
+    ns = {'dot': _dot, 'cdot': _cdot, 'cdoto': _cdoto, 'min': min, 'max': max, 'abs': abs, 'len': len,
+          '_close': _close, 'implies': lambda a, b: (not a) or b, 'iff': lambda a, b: bool(a) == bool(b),
           'sum': lambda a, lo, hi: sum(a[lo:hi]) if hi > lo else 0, 'real': float, 'old': lambda x: x,
           '_UNBOUNDED': range(-3, 40)}
     for name, src in c.get('pyfuncs', {}).items():
